@@ -1422,6 +1422,11 @@ package gocql
 // Pick establishes the iterator's invariant (closure-requires obligations).
 //@ func (t *tokenAwareHostPolicy) Pick
 //@   props C11
+//@   count_calls ExecutableQuery.Keyspace partitioner.Hash
+// the replicas are those of the query's own keyspace and of the hash of its routing key
+//@   before replicasFor: ExecutableQuery_Keyspace_calls >= 1 && same(arg0, meta.replicas[ExecutableQuery_Keyspace_ret0])
+//@   before replicasFor: partitioner_Hash_calls >= 1 && same(arg1, partitioner_Hash_ret0)
+//@   before GetHostForToken: same(arg1, partitioner_Hash_ret0) && arg0 == meta.tokenRing
 //@   requires t.fallback != nil
 //@   requires dyn(t.metadata.v) == nil || typeis(t.metadata.v, *clusterMeta)
 //@   requires typeis(t.metadata.v, *clusterMeta) && unbox(t.metadata.v, *clusterMeta) != nil && unbox(t.metadata.v, *clusterMeta).tokenRing != nil ==> unbox(t.metadata.v, *clusterMeta).tokenRing.partitioner != nil
@@ -1482,6 +1487,7 @@ package gocql
 //@   ensures result == nil ==> *currentLayer == len(*hosts)
 // a returned host is the up host at the current position of the current tier
 //@   ensures result != nil ==> *currentLayer < len(*hosts) && 1 <= *currentlyObserved && typeis(result, *selectedHost) && IsUp_calls >= 1 && IsUp_ret0
+//@   ensures result != nil ==> (*HostInfo)(unbox(result, *selectedHost)) != nil && (*HostInfo)(unbox(result, *selectedHost)).state == NodeUp
 //@   ensures result != nil ==> same(unbox(result, *selectedHost), (*hosts)[*currentLayer][(*shift + *currentlyObserved) % len((*hosts)[*currentLayer])])
 // strict lexicographic progress of (layer, observed); tiers are never revisited
 //@   ensures result != nil ==> *currentLayer > old(*currentLayer) || (*currentLayer == old(*currentLayer) && *currentlyObserved > old(*currentlyObserved))
